@@ -53,8 +53,8 @@ UNIVERSE: typing.List[typing.Tuple[typing.Tuple[str, ...], str, int, int]] = [
     (("r", "x", "y"), "Struct_", 1, 1),  # Struct__1_1: double underscore inside the file name
     (("r", "if"), "A", 1, 0),  # component stropped by c, cpp (_if) and py (if_)
     (("r", "if", "y"), "_A", 2, 0),  # below a stropped, possibly empty namespace; short name stropped by c/cpp (_a_2_0)
-    (("r", "_if"), "B", 1, 0),  # folds with r.if in c and cpp
-    (("r", "if_"), "B", 1, 0),  # folds with r.if in py
+    (("r", "_if"), "A", 1, 0),  # folds with r.if in c and cpp, and its file with the file of r.if.A.1.0
+    (("r", "if_"), "B", 1, 0),  # folds with r.if in py (the namespaces fold, no two type files do)
 ]
 ROOT = "r"
 SECOND_ROOT = "s"
@@ -79,6 +79,15 @@ BY_NAME = {tname(s): s for s in UNIVERSE}
 
 def tid_of(t: typing.Any) -> str:
     return f"{t.full_name}.{t.version.major}.{t.version.minor}"
+
+
+def uname_for(names: typing.Sequence[str]) -> str:
+    """The type of the second root. Its name encodes the set it refers to: PyDSDL types compare equal by name, version
+    and bit length set, and nunavut caches dependency lists per (equal) type for the life of the process - that cache
+    is C10's subject, so this check never presents two different types under one name."""
+    order = [tname(u) for u in UNIVERSE]
+    mask = sum(1 << order.index(n) for n in names)
+    return f"{SECOND_ROOT}.U{mask:03x}.1.0"
 
 
 def subset_key(names: typing.Sequence[str]) -> str:
@@ -124,7 +133,8 @@ def write_dsdl(sandbox: pathlib.Path, names: typing.Sequence[str]) -> None:
         s = sandbox / "dsdl" / SECOND_ROOT
         s.mkdir(parents=True, exist_ok=True)
         body = "".join(f"{n} f{i}\n" for i, n in enumerate(names)) + "@sealed\n"
-        (s / "U.1.0.dsdl").write_text(body, encoding="utf-8")
+        short = uname_for(names).split(".")[1]
+        (s / f"{short}.1.0.dsdl").write_text(body, encoding="utf-8")
 
 
 # ------------------------------------------------------------------------------------------------ language objects
@@ -153,6 +163,10 @@ class Expect:
         self.types: typing.Dict[str, TypeSpec] = {tname(s): s for s in specs}
         self.rel: typing.Dict[str, typing.Tuple[str, ...]] = {}
         self.raw: typing.Dict[str, typing.Tuple[str, ...]] = {}
+        # The statement writes the file name as <ShortName>_<major>_<minor><extension> and only calls the namespace
+        # components "(stropped)"; nunavut strops the file-name token too (documented one-way stropping).  Both
+        # readings are accepted: `rel` = stropped token, `alt` = the token as written in the statement.
+        self.alt: typing.Dict[str, typing.Tuple[str, ...]] = {}
         self.closure: typing.Set[typing.Tuple[str, ...]] = set()
         self.stropped_any = False
         for s in specs:
@@ -160,6 +174,7 @@ class Expect:
             token = f"{short}_{major}_{minor}"
             parts = tuple(strop1(lctx, c) for c in ns) + (strop1(lctx, token) + self.ext,)
             self.rel[tname(s)] = parts
+            self.alt[tname(s)] = parts[:-1] + (token + self.ext,)
             self.raw[tname(s)] = tuple(ns) + (token + self.ext,)
             if parts != self.raw[tname(s)]:
                 self.stropped_any = True
@@ -173,14 +188,31 @@ class Expect:
         self.gap = any(not any(s[0] == n for s in specs) for n in self.closure)
         self.multi_version = len({(s[0], s[1]) for s in specs}) < len(specs)
         self.multi_ns = len({s[0] for s in specs}) > 1
+        self._want: typing.Dict[tuple, typing.Dict[str, typing.Tuple[str, ...]]] = {}
+
+    def want_paths(self, out: str, cwd: pathlib.Path) -> typing.Dict[str, typing.Tuple[str, ...]]:
+        """type name -> the acceptable paths (one, or two where the file-name token is changed by the stropping)"""
+        key = (out, str(cwd))
+        if key not in self._want:
+            self._want[key] = {
+                n: tuple(
+                    dict.fromkeys(
+                        [norm(cwd, pathlib.PurePath(out, *self.rel[n])), norm(cwd, pathlib.PurePath(out, *self.alt[n]))]
+                    )
+                )
+                for n in self.types
+            }
+        return self._want[key]
 
     def nontrivial(self) -> bool:
         return self.gap or self.multi_version or self.multi_ns or self.stropped_any or self.folded_ns
 
 
-def norm(cwd: pathlib.Path, p: typing.Any) -> pathlib.Path:
-    """A path as the file it names: relative paths are taken from the working directory; nothing is resolved."""
-    return pathlib.Path(cwd, p)
+def norm(cwd: pathlib.Path, p: typing.Any) -> str:
+    """A path as the file it names: relative paths are taken from the working directory; nothing is resolved.
+    (Same equivalence as pathlib.Path(cwd, p) == ..., computed on strings because it runs millions of times.)"""
+    s = str(p) if isinstance(p, pathlib.PurePath) else str(pathlib.PurePath(p))
+    return s if s.startswith("/") else f"{cwd}/{s}"
 
 
 # ----------------------------------------------------------------------------------------------- permuting the sets
@@ -214,11 +246,12 @@ class SetOrder:
 # ------------------------------------------------------------------------------------------------ the model oracle
 def ns_identity(node: typing.Any, root_resolved: pathlib.Path, root_name: str) -> typing.Tuple[str, ...]:
     """Names a namespace node by where its DSDL lives (unstropped), the only public unstropped identity it has."""
-    try:
-        rel = pathlib.Path(node.source_file_path).relative_to(root_resolved)
-    except ValueError:
-        return ("?", str(node.source_file_path))
-    return (root_name,) + tuple(rel.parts)
+    src, root = str(node.source_file_path), str(root_resolved)
+    if src == root:
+        return (root_name,)
+    if src.startswith(root + "/"):
+        return (root_name,) + tuple(src[len(root) + 1 :].split("/"))
+    return ("?", src)
 
 
 def check_model(
@@ -232,7 +265,7 @@ def check_model(
 ) -> typing.Tuple[typing.List[typing.Tuple[str, str]], tuple]:
     """Returns (violations as (kind, text), canonical form of the model)."""
     v: typing.List[typing.Tuple[str, str]] = []
-    want_path = {n: norm(cwd, pathlib.Path(out, *ex.rel[n])) for n in ex.types}
+    want_path = ex.want_paths(out, cwd)
     by_tid = {tid_of(t): t for t in types}
     if set(by_tid) != set(ex.types):
         raise HarnessError(f"glue: parsed types {sorted(by_tid)} are not the requested {sorted(ex.types)}")
@@ -249,22 +282,33 @@ def check_model(
         if n not in ex.types:
             v.append(("type_unknown", f"get_all_datatypes() yields {n} which was not in the input"))
     for n, p in seen:
-        if n in want_path and norm(cwd, p) != want_path[n]:
+        if n in want_path and norm(cwd, p) not in want_path[n]:
             v.append(("type_path", f"{n} mapped to {p}, expected {pathlib.Path(out, *ex.rel[n])}"))
+    first_path = {}
+    for n, p in seen:
+        first_path.setdefault(n, norm(cwd, p))
 
     # -- injectivity (folds of the one-way stropping excepted, exactly)
-    groups: typing.Dict[pathlib.Path, typing.Set[str]] = collections.defaultdict(set)
+    groups: typing.Dict[str, typing.Set[str]] = collections.defaultdict(set)
     for n, p in seen:
         groups[norm(cwd, p)].add(n)
     for p, ns_ in groups.items():
         if len(ns_) > 1:
             rels = {ex.rel.get(n) for n in ns_}
-            if len(rels) != 1 or None in rels:
-                v.append(("shared_file", f"distinct types {sorted(ns_)} share {p} without a stropping fold"))
+            alts = {ex.alt.get(n) for n in ns_}
+            if (len(rels) != 1 or None in rels) and (len(alts) != 1 or None in alts):
+                shown = p[len(str(cwd)) + 1 :] if p.startswith(str(cwd) + "/") else p
+                v.append(("shared_file", f"distinct types {sorted(ns_)} share {shown} without a stropping fold"))
 
     # -- every namespace of the prefix closure exactly once
     nodes = [(node, p) for node, p in root_node.get_all_namespaces()]
     idents = [ns_identity(node, root_resolved, root_name) for node, _ in nodes]
+    id_cache = {id(node): ident for (node, _), ident in zip(nodes, idents)}
+
+    def ident_of(k: typing.Any) -> typing.Tuple[str, ...]:
+        got = id_cache.get(id(k))
+        return got if got is not None else ns_identity(k, root_resolved, root_name)
+
     ncnt = collections.Counter(idents)
     for c in sorted(ex.closure):
         if ncnt.get(c, 0) == 0:
@@ -288,7 +332,7 @@ def check_model(
         if node.get_root_namespace() is not root_node:
             v.append(("link_root", f"{'.'.join(ident)}.get_root_namespace() is not the root"))
         kids = list(node.get_nested_namespaces())
-        kid_ids = [ns_identity(k, root_resolved, root_name) for k in kids]
+        kid_ids = [ident_of(k) for k in kids]
         want_kids = sorted(c for c in ex.closure if len(c) == len(ident) + 1 and c[:-1] == ident)
         if sorted(kid_ids) != want_kids:
             v.append(
@@ -313,8 +357,8 @@ def check_model(
         if sorted(tid_of(t) for t in node.data_types) != sorted(n for n, _ in nested):
             v.append(("nested_types", f"data_types and get_nested_types() of {'.'.join(ident)} disagree"))
         for n, p in nested:
-            if n in want_path and norm(cwd, p) != want_path[n]:
-                v.append(("type_path", f"{n} mapped to {p} in get_nested_types(), expected {want_path[n]}"))
+            if n in want_path and (norm(cwd, p) not in want_path[n] or norm(cwd, p) != first_path.get(n, norm(cwd, p))):
+                v.append(("type_path", f"{n} mapped to {p} in get_nested_types(), expected {want_path[n][0]}"))
         for n, t in by_tid.items():
             try:
                 p = node.find_output_path_for_type(t)
@@ -323,7 +367,7 @@ def check_model(
                     ("lookup_failed", f"find_output_path_for_type({n}) asked at {'.'.join(ident)}: {type(e).__name__}")
                 )
                 continue
-            if norm(cwd, p) != want_path[n]:
+            if norm(cwd, p) not in want_path[n] or norm(cwd, p) != first_path.get(n, norm(cwd, p)):
                 v.append(("lookup_path", f"find_output_path_for_type({n}) at {'.'.join(ident)} gives {p}"))
         for (other, opath), oid in zip(nodes, idents):
             try:
@@ -331,13 +375,13 @@ def check_model(
             except Exception as e:  # pylint: disable=broad-except
                 v.append(("lookup_failed", f"find_output_path_for_type(namespace {'.'.join(oid)}): {type(e).__name__}"))
                 continue
-            if p != opath:
+            if p is not opath and str(p) != str(opath):
                 v.append(("lookup_path", f"namespace {'.'.join(oid)}: lookup gives {p}, get_all_namespaces {opath}"))
         canon_ns.append(
             (
                 ident,
-                str(norm(cwd, npath)),
-                str(norm(cwd, node.output_folder)),
+                norm(cwd, npath),
+                norm(cwd, node.output_folder),
                 str(node.full_name),
                 tuple(sorted(kid_ids)),
                 tuple(sorted(n for n, _ in nested)),
@@ -348,7 +392,7 @@ def check_model(
     mixed: typing.Counter = collections.Counter()
     for obj, _p in root_node.get_all_types():
         if hasattr(obj, "get_nested_namespaces"):
-            mixed[("ns",) + ns_identity(obj, root_resolved, root_name)] += 1
+            mixed[("ns",) + ident_of(obj)] += 1
         else:
             mixed[("t", tid_of(obj))] += 1
     want_mixed = collections.Counter([("ns",) + c for c in ex.closure] + [("t", n) for n in ex.types])
@@ -356,13 +400,13 @@ def check_model(
         diff = sorted(str(k) for k in (set(mixed) | set(want_mixed)) if mixed.get(k, 0) != want_mixed.get(k, 0))
         v.append(("all_types", f"get_all_types() multiset differs from namespaces + types at {diff}"))
 
-    canon = (tuple(sorted((n, str(norm(cwd, p))) for n, p in seen)), tuple(sorted(canon_ns)))
+    canon = (tuple(sorted((n, norm(cwd, p)) for n, p in seen)), tuple(sorted(canon_ns)))
     return v, canon
 
 
-def rel_canon(canon: tuple, base: pathlib.Path) -> tuple:
+def rel_canon(canon: tuple, base: str) -> tuple:
     """The canonical model with the output directory factored out (to count distinct outcomes)."""
-    b = str(base)
+    b = base
 
     def strip(s: str) -> str:
         return s[len(b) :] if s.startswith(b) else s
@@ -418,8 +462,8 @@ def model_case(
 def _spec_of(name: str) -> TypeSpec:
     if name in BY_NAME:
         return BY_NAME[name]
-    if name == f"{SECOND_ROOT}.U.1.0":
-        return ((SECOND_ROOT,), "U", 1, 0)
+    if name.startswith(f"{SECOND_ROOT}.U") and name.endswith(".1.0"):
+        return ((SECOND_ROOT,), name.split(".")[1], 1, 0)
     raise HarnessError(f"unknown type name {name}")
 
 
@@ -441,7 +485,7 @@ def parse_roots(sandbox: pathlib.Path, names: typing.Sequence[str]) -> typing.Tu
         except Exception as e:  # pylint: disable=broad-except
             return r, {}, f"second root: {type(e).__name__}: {e}"
         s = {tid_of(t): t for t in s_types}
-        if sorted(s) != [f"{SECOND_ROOT}.U.1.0"]:
+        if sorted(s) != [uname_for(names)]:
             raise HarnessError(f"glue: PyDSDL returned {sorted(s)} for the second root")
     return r, s, None
 
@@ -458,7 +502,7 @@ def xroot_model(
     ex_r: Expect,
 ) -> typing.List[typing.Tuple[str, str]]:
     """Second root: its own tree obeys the oracle, and its references name the paths the first tree assigned."""
-    uname = f"{SECOND_ROOT}.U.1.0"
+    uname = uname_for(names)
     vio, _canon, _ex = model_case(sandbox, s_parsed, [uname], lang, ext, stem, spelling, None, SECOND_ROOT)
     vio = [(k, "second root: " + w) for k, w in vio]
     lctx = lctx_for(lang, ext, stem)
@@ -472,14 +516,15 @@ def xroot_model(
     root_prefix = strop1(lctx, ROOT) + "/"
     want = set()
     for n in names:
-        rel = "/".join(ex_r.rel[n])
-        want.add(rel)
-        if rel not in targets:
-            v = ("xroot_ref", f"{uname} refers to {sorted(t for t in targets if t.startswith(root_prefix))}, not {rel}")
+        cands = list(dict.fromkeys(["/".join(ex_r.rel[n]), "/".join(ex_r.alt[n])]))
+        want.update(cands)
+        found = [c for c in cands if c in targets]
+        if not found:
+            v = ("xroot_ref", f"{uname} refers to {sorted(t for t in targets if t.startswith(root_prefix))}, not {cands[0]}")
             vio.append(v)
         g = generated.get(n)
-        if g is not None and pathlib.Path(g) != base / rel and rel in targets:
-            vio.append(("xroot_ref", f"{n} is generated to {g} but referenced as {rel} below {out}"))
+        if g is not None and found and g not in [f"{base}/{c}" for c in found]:
+            vio.append(("xroot_ref", f"{n} is generated to {g} but referenced as {found[0]} below {out}"))
     for t in targets:
         if t.startswith(root_prefix) and t not in want:
             vio.append(("xroot_ref", f"{uname} refers to {t} which is the path of none of its dependencies"))
@@ -487,8 +532,12 @@ def xroot_model(
 
 
 # ------------------------------------------------------------------------------------------------ model worker
-def _model_job(job: typing.Tuple[typing.Tuple[str, ...], str, bool]) -> dict:
-    names, scratch, all_configs = job
+def _model_job(job: typing.Tuple[typing.Tuple[str, ...], str, typing.Optional[int]]) -> dict:
+    """seed None = thorough: every order of the type list in every configuration.  Otherwise (quick) every order in the
+    core configurations (default extension and stem x all spellings; every extension/stem x spelling `rel`) and in the
+    seed-selected 1/16 of the other (set, language, extension, stem, spelling) cells; identity and reversed order in
+    the rest."""
+    names, scratch, seed = job
     key = subset_key(names)
     bag = Bag()
     res = {
@@ -532,15 +581,16 @@ def _model_job(job: typing.Tuple[typing.Tuple[str, ...], str, bool]) -> dict:
                 lctx = lctx_for(lang, ext, stem)
                 ex = Expect([BY_NAME[n] for n in names], lctx, lang, ext)
                 for spelling in SPELLINGS:
-                    if not all_configs and not (
-                        (ext is None and stem is None) or spelling == "rel"
-                    ):  # pragma: no cover (unused switch)
-                        continue
+                    core_cfg = (ext is None and stem is None) or spelling == "rel"
+                    cell = f"{key}|{lang}|{ext}|{stem}|{spelling}"
+                    every_order = seed is None or core_cfg or stable_hash(cell) % 16 == seed % 16
                     first_canon: typing.Optional[tuple] = None
                     first_order: typing.Optional[tuple] = None
                     sig_base = {"lang": lang, "folded_ns": ex.folded_ns}
                     case_base = {"mode": "model", "lang": lang, "ext": ext, "stem": stem, "spelling": spelling}
-                    runs = [(p, None) for p in perms]
+                    runs = [(p, None) for p in (perms if every_order else perms[:1] + perms[-1:][: len(perms) - 1])]
+                    res["feat"]["cells_every_order"] += every_order
+                    res["feat"]["cells"] += 1
                     if ext is None and stem is None and spelling == "rel":
                         runs += [(perms[0], o) for o in SETORDERS] + [(perms[-1], o) for o in SETORDERS]
                     for order, setorder in runs:
@@ -633,7 +683,9 @@ def disk_case(
     vio: typing.List[typing.Tuple[str, str]] = []
     runs = 0
 
-    def classify(before: dict, after: dict, required: typing.Set[str], ns_files: typing.Set[str], tag: str) -> None:
+    def classify(
+        before: dict, after: dict, required: typing.List[typing.Tuple[str, ...]], ns_files: typing.Set[str], tag: str
+    ) -> None:
         for k in sorted(before):
             if k not in after:
                 vio.append(("outside_outdir", f"{tag}: {k} was removed"))
@@ -651,11 +703,16 @@ def disk_case(
                 vio.append(("outside_outdir", f"{tag}: file {k} created outside {out_rel}/"))
                 continue
             files.add(k)
-        for k in sorted(required):
-            if k not in after:
-                vio.append(("type_file_missing", f"{tag}: no file {k}"))
+        allowed = set()
+        for cands in required:
+            present = [k for k in cands if k in after]
+            if not present:
+                vio.append(("type_file_missing", f"{tag}: no file {cands[0]}"))
+            elif len(present) > 1:
+                vio.append(("unexpected_file", f"{tag}: one type was generated to both {present[0]} and {present[1]}"))
+            allowed.update(cands)
         for k in sorted(files):
-            if k in required or k in ns_files:
+            if k in allowed or k in ns_files:
                 continue
             if k.startswith(out_rel + "/nunavut/") or k == f"{out_rel}/nunavut_support{ex.ext}":
                 continue
@@ -683,9 +740,11 @@ def disk_case(
     snap1 = gen.snapshot(sandbox)
     if res.rc != 0:
         vio.append(("generation_failed", f"nnvg for root {ROOT} failed: {res.exc or res.err.strip()[-200:]}"))
-    required = {f"{out_rel}/" + "/".join(ex.rel[n]) for n in names}
+    required = [
+        tuple(dict.fromkeys([f"{out_rel}/" + "/".join(ex.rel[n]), f"{out_rel}/" + "/".join(ex.alt[n])])) for n in names
+    ]
     try:
-        nsf = model_ns_files(r_parsed, list(names), ROOT) if names else set()
+        nsf = model_ns_files(r_parsed, list(names), ROOT)  # (for the empty set: the file of the nameless root)
     except Exception:  # pylint: disable=broad-except
         nsf = set()  # the model oracle reports this; here the namespace files are simply not excused
     classify(snap0, snap1, required, nsf, f"root {ROOT}")
@@ -708,41 +767,54 @@ def disk_case(
     if res.rc != 0:
         vio.append(("generation_failed", f"nnvg for root {SECOND_ROOT} failed: {res.exc or res.err.strip()[-200:]}"))
         return vio, ex, runs
-    uname = f"{SECOND_ROOT}.U.1.0"
+    uname = uname_for(names)
     ex_s = Expect([_spec_of(uname)], lctx, lang, ext)
     ufile = f"{out_rel}/" + "/".join(ex_s.rel[uname])
+    if ex_s.rel[uname] != ex_s.alt[uname]:
+        raise HarnessError("glue: the second root's type name is not expected to be changed by the stropping")
     try:
         nsf2 = model_ns_files(s_parsed, [uname], SECOND_ROOT)
     except Exception:  # pylint: disable=broad-except
         nsf2 = set()
-    classify(snap1, snap2, {ufile}, nsf2, f"root {SECOND_ROOT}")
+    classify(snap1, snap2, [(ufile,)], nsf2, f"root {SECOND_ROOT}")
     upath = sandbox / ufile
     if upath.exists() and lang in ("c", "cpp", "py"):
         text = upath.read_text(encoding="utf-8")
         if lang in ("c", "cpp"):
             targets = set(INCLUDE_RE.findall(text))
             prefix = strop1(lctx, ROOT) + "/"
-            want = {"/".join(ex.rel[n]) for n in names}
-            for w in sorted(want):
-                if w not in targets:
-                    vio.append(("xroot_ref_disk", f"{ufile} does not include {w}"))
-                elif f"{out_rel}/{w}" not in snap1:
-                    vio.append(("xroot_ref_disk", f"{ufile} includes {w} but the run for {ROOT} created no such file"))
+            want = set()
+            for n in names:
+                cands = list(dict.fromkeys(["/".join(ex.rel[n]), "/".join(ex.alt[n])]))
+                want.update(cands)
+                found = [c for c in cands if c in targets]
+                if not found:
+                    vio.append(("xroot_ref_disk", f"{ufile} does not include {cands[0]}"))
+                elif not any(f"{out_rel}/{c}" in snap1 for c in found):
+                    vio.append(
+                        ("xroot_ref_disk", f"{ufile} includes {found[0]} but the run for {ROOT} created no such file")
+                    )
             for t in sorted(targets):
                 if t.startswith(prefix) and t not in want:
                     vio.append(("xroot_ref_disk", f"{ufile} includes {t}, the file of none of its dependencies"))
         else:
             imports = set(IMPORT_RE.findall(text))
             for n in names:
-                parts = ex.rel[n]
-                mod = ".".join(parts[:-1])
-                cls = parts[-1][: -len(ex.ext)] if ex.ext else parts[-1]
+                mod = ".".join(ex.rel[n][:-1])
                 if mod not in imports:
                     vio.append(("xroot_ref_disk", f"{ufile} does not import {mod}"))
-                if f"{mod}.{cls}" not in text:
-                    vio.append(("xroot_ref_disk", f"{ufile} never names {mod}.{cls}"))
-                if f"{out_rel}/" + "/".join(parts) not in snap1:
-                    vio.append(("xroot_ref_disk", f"module file {'/'.join(parts)} was not created by the run for {ROOT}"))
+                ok = False
+                for parts in dict.fromkeys([ex.rel[n], ex.alt[n]]):
+                    cls = parts[-1][: -len(ex.ext)] if ex.ext else parts[-1]
+                    if re.search(rf"(?<![A-Za-z0-9_.]){re.escape(mod)}\.{re.escape(cls)}(?![A-Za-z0-9_])", text):
+                        ok = ok or (f"{out_rel}/" + "/".join(parts) in snap1)
+                if not ok:
+                    vio.append(
+                        (
+                            "xroot_ref_disk",
+                            f"{ufile} does not name {mod}.<{n}> by the module file that the run for {ROOT} created",
+                        )
+                    )
     return vio, ex, runs
 
 
@@ -770,7 +842,7 @@ DISK_CORE_PAIRS = [
     ("r.A.1.0", "r.x.y.Struct_.1.1"),  # root level type + depth 3 with an empty intermediate namespace
     ("r.x.y.1.0", "r.x.y.A.1.0"),  # type named like the sibling namespace
     ("r.if.A.1.0", "r.if.y._A.2.0"),  # stropped components, stropped short name
-    ("r.if.A.1.0", "r._if.B.1.0"),  # fold in c / cpp
+    ("r.if.A.1.0", "r._if.A.1.0"),  # fold in c / cpp
     ("r.if.A.1.0", "r.if_.B.1.0"),  # fold in py
 ]
 
@@ -783,7 +855,9 @@ def run(ctx: Ctx) -> int:
     big_sel = [s for s in big if ctx.in_slice(subset_key(s))]
     chosen = small + big_sel
     # largest first: better balance of the pool
-    jobs = [(s, str(ctx.scratch), True) for s in sorted(chosen, key=lambda s: (-len(s), s))]
+    jobs = [
+        (s, str(ctx.scratch), None if ctx.thorough else ctx.seed) for s in sorted(chosen, key=lambda s: (-len(s), s))
+    ]
     results = ctx.pool_map(_model_job, jobs)
 
     evals = sum(r["evals"] for r in results)
@@ -823,11 +897,11 @@ def run(ctx: Ctx) -> int:
         )
     ctx.samples.append(
         {
-            "types": ["r.if.A.1.0", "r._if.B.1.0", "r.x.y.Struct_.1.1"],
+            "types": ["r.if.A.1.0", "r._if.A.1.0", "r.x.y.Struct_.1.1"],
             "lang": "c",
             "orders": 6,
             "closure": ["r", "r.if", "r._if", "r.x", "r.x.y"],
-            "second_root": "s.U.1.0 with one field of each",
+            "second_root": uname_for(["r.if.A.1.0", "r._if.A.1.0", "r.x.y.Struct_.1.1"]) + " with one field of each",
         }
     )
 
@@ -873,7 +947,8 @@ def run(ctx: Ctx) -> int:
         "directory",
         "bound_completed": f"all {len(small)} subsets of <= {MAX_SET - 1} types and {len(big_sel)}/{len(big)} subsets of "
         f"{MAX_SET} types out of a 12-type universe x {len(LANGS)} languages x {len(EXTS)} extensions x {len(STEMS)} "
-        f"stems x {len(SPELLINGS)} spellings x all orders of the type list; disk: {len(disk_sel)}/{len(disk_sets)} "
+        f"stems x {len(SPELLINGS)} spellings, every order of the type list in {int(feat.get('cells_every_order', 0))}/"
+        f"{int(feat.get('cells', 0))} of these cells (first and reversed order in the others); disk: {len(disk_sel)}/{len(disk_sets)} "
         f"subsets of <= {MAX_DISK_SET} types x {len(LANGS)} languages x {len(DISK_CONFIGS)} configurations, two runs each",
         "exhaustive": exhaustive,
     }
